@@ -1283,72 +1283,33 @@ Proof.
   intros H. rewrite H. reflexivity.
 Qed.
 
-Lemma led_notify_name_change K fuel : forall n, led K (notify_name_change fuel n) d0 dsum true.
+Lemma led_panic {A} K (post : A -> delta) : led K (@panic A) d0 post true.
+Proof. intros F w o w' HF HK HL E. inversion E; subst. split; [lia|]. intros _. eapply L_ext; [|exact HL]. intros x; unfold dadd, d0; lia. Qed.
+
+Lemma led_notify_name_change {A} fuel (postk : A -> delta) : (forall a, nonneg (postk a)) ->
+  forall n (k : M A) K, nonneg K -> (forall K', nonneg K' -> dle K K' -> led K' k d0 postk true) ->
+  led K (notify_name_change fuel n k) d0 postk true.
 Proof.
-  induction fuel as [|k IH]; intros n; cbn [notify_name_change].
+  intros Hpk. induction fuel as [|f IH]; intros n k K HKn Hk; cbn [notify_name_change].
   { intros F w o w' HF HK HL E. inversion E; subst. split; [lia|]. intros _. eapply L_ext; [|exact HL]. intros x; unfold dadd, d0; lia. }
   apply led_nbind; [apply neutral_the_node|intros p].
-  change true with (true && true). eapply led_bind0 with (p1 := dsum).
-  - generalize (pn_refs p) as l. induction l as [|[r nm] rest IHl]; [apply led_ret_eq; reflexivity|].
-    intros F w o w' HF HK HL E.
+  generalize (pn_refs p) as l. intros l. revert K HKn Hk. induction l as [|[r nm] rest IHl]; intros K HKn Hk.
+  - generalize (pn_kids p) as kids. intros kids. revert K HKn Hk. induction kids as [|[nm c] rest IHk]; intros K HKn Hk; [apply Hk; [exact HKn|apply dle_refl]|].
+    apply IH; [exact HKn|]. intros K' Hn' Hle. apply IHk; [exact Hn'|]. intros K'' Hn'' Hle'. apply Hk; [exact Hn''|eapply dle_trans; eauto].
+  - intros F w o w' HF HK HL E.
     unfold bind at 1 in E. cbn [the_ref gets] in E.
-    destruct (0 <? fr_refs (get_ref (w_st w) r))%Z eqn:Elive; [|exact (IHl F w o w' HF HK HL E)].
+    destruct (0 <? fr_refs (get_ref (w_st w) r))%Z eqn:Elive; [|exact (IHl K HKn Hk F w o w' HF HK HL E)].
     apply Z.ltb_lt in Elive. unfold bind at 1 in E. rewrite incref_run in E.
-    assert (HL2 : L (dadd (d1 r) F) (set_refs_of (w_st w) r (refsZ (w_st w) r + 1))).
+    assert (HL2 : L (dadd (dadd (d1 r) d0) F) (set_refs_of (w_st w) r (refsZ (w_st w) r + 1))).
     { eapply L_ext; [|apply (L_incref_live _ _ r HL); unfold refsZ; lia]. intros x; unfold dadd, d0; lia. }
-    assert (Hrest : led K (match fr_parent (get_ref (w_st w) r) with
-                           | None => panic
-                           | Some pr => pfr <- the_ref pr ;;
-                                        backend (mkCall MRenamed (fr_file (get_ref (w_st w) r)) [nm] (Some (fr_file pfr)) [] []) ;;
-                                        hs <- (fix refs (l : list (refid * string)) : M (list refid) :=
-                                                 match l with
-                                                 | [] => ret []
-                                                 | (r, nm) :: rest =>
-                                                     fr <- the_ref r ;;
-                                                     if (0 <? fr_refs fr)%Z then
-                                                       incref r ;;
-                                                       match fr_parent fr with
-                                                       | None => panic
-                                                       | Some pr =>
-                                                           pfr <- the_ref pr ;;
-                                                           backend (mkCall MRenamed (fr_file fr) [nm] (Some (fr_file pfr)) [] []) ;;
-                                                           hs <- refs rest ;;
-                                                           ret (r :: hs)
-                                                       end
-                                                     else refs rest
-                                                 end) rest ;;
-                                        ret (r :: hs)
-                           end)%m (d1 r) (fun hs => dsum hs) true).
-    { destruct (fr_parent (get_ref (w_st w) r)) as [pr|].
-      - apply led_nbind'; [apply neutral_the_ref|apply nonneg_d1|intros pfr].
-        apply led_nbind'; [apply neutral_backend|apply nonneg_d1|intros _].
-        change true with (true && true). eapply led_bind0.
-        + eapply led_conseq; [apply (led_frame K _ d0 dsum true (d1 r) IHl (nonneg_d1 r))| | |auto]; [intros x; unfold dadd, d0; lia|reflexivity].
-        + intros hs. apply led_ret_eq. intros x. cbn. unfold dadd. lia.
-      - intros F0 w0 o0 w0' HF0 HK0 HL0 E0. inversion E0; subst. split; [lia|]. intros _.
-        eapply L_drop_own; [apply nonneg_d1|exact HF0|exact HL0]. }
-    match type of E with _ ?W = _ => destruct (Hrest F W o w' HF HK HL2 E) as [N2 R2] end. split; [cbn in N2; exact N2|exact R2].
-  - intros h1. change true with (true && true). eapply led_bind0 with (p1 := fun h2 => dadd (dsum h2) (dsum h1)).
-    + eapply led_conseq; [apply (led_frame K _ d0 dsum true (dsum h1))| | |auto].
-      * generalize (pn_kids p) as l. induction l as [|[nm c] rest IHl]; [apply led_ret_eq; reflexivity|].
-        change true with (true && true). eapply led_bind0; [apply IH|intros a].
-        change true with (true && true). eapply led_bind0 with (p1 := fun b => dadd (dsum b) (dsum a)).
-        -- eapply led_conseq; [apply (led_frame K _ d0 dsum true (dsum a) IHl (nonneg_dsum a))| | |auto]; [intros x; unfold dadd, d0; lia|reflexivity].
-        -- intros b. apply led_ret_eq. intros x. rewrite dsum_app. unfold dadd. lia.
-      * apply nonneg_dsum.
-      * intros x; unfold dadd, d0; lia.
-      * reflexivity.
-    + intros h2. apply led_ret_eq. intros x. rewrite dsum_app. unfold dadd. lia.
-Qed.
-
-Lemma led_dec_all K l : led K (dec_all l) (dsum l) (fun _ => d0) true.
-Proof.
-  induction l as [|r t IH]; cbn [dec_all dsum]; [apply led_ret|].
-  change true with (true && true). eapply (led_bind K (dec_ref_ r) _ (d1 r) (dsum t) (fun _ => d0) (fun _ => dsum t)).
-  - apply led_dec_ref_.
-  - intros _. exact IH.
-  - apply nonneg_dsum.
-  - intros a x. unfold d0. lia.
+    assert (HKn' : nonneg (dadd K (d1 r))) by (apply nonneg_add; [exact HKn|apply nonneg_d1]).
+    match type of E with with_defer _ ?B ?W = _ =>
+      assert (Hbody : led (dadd K (d1 r)) B d0 postk true);
+      [|pose proof (led_with_defer K r B d0 postk true Hbody Hpk) as Hwd; destruct (Hwd F W o w' HF HK HL2 E) as [N2 R2]] end.
+    2:{ split; [cbn in N2; unfold set_refs_of in N2; cbn in N2; exact N2|exact R2]. }
+    destruct (fr_parent (get_ref (w_st w) r)); [|apply led_panic].
+    apply led_nbind; [apply neutral_the_ref|intros pfr]. apply led_nbind; [apply neutral_backend|intros _].
+    apply IHl; [exact HKn'|]. intros K' Hn' Hle. apply Hk; [exact Hn'|eapply dle_trans; [apply dle_add|exact Hle]].
 Qed.
 
 Lemma rename_child_to_eq f old target new :
@@ -1358,7 +1319,7 @@ Lemma rename_child_to_eq f old target new :
    mark_child_deleted (fr_node tfr) new ;;
    o <- remove_with_name (fr_node ffr) old (Some (rename_fn target (fr_node tfr) (fr_file tfr) new)) ;;
    match o with
-   | Some c => add_path_node_for (fr_node tfr) new c ;; fuel <- gets node_fuel ;; held <- notify_name_change fuel c ;; dec_all held
+   | Some c => add_path_node_for (fr_node tfr) new c ;; fuel <- gets node_fuel ;; notify_name_change fuel c (ret tt)
    | None => ret tt
    end)%m.
 Proof. reflexivity. Qed.
@@ -1378,7 +1339,7 @@ Proof.
   - intros o. destruct o as [c|]; [|apply led_ret].
     apply led_nbind; [apply neutral_add_path_node_for|intros _].
     apply led_nbind; [apply neutral_gets|intros fuel].
-    change true with (true && true). eapply led_bind0; [apply led_notify_name_change|intros held; apply led_dec_all].
+    apply led_notify_name_change; [intros; apply nonneg_d0|exact HKn|]. intros K' Hn' Hle. apply led_ret.
 Qed.
 
 Definition is_rename (m : tmsg) : bool := match m with Trename _ _ _ | Trenameat _ _ _ _ => true | _ => false end.
